@@ -51,6 +51,12 @@ pub fn gen_sym_world(rng: &mut Rng, idx: usize) -> SymWorld {
     };
     let k = 2 + rng.below(7);
     let mut has_default = false;
+    // names several modules export: star re-exports of two of them collide (the first one wins)
+    if rng.chance(1, 2) {
+      let c = rng.below(2);
+      text.push_str(&format!("export const common{} = {};\n", c, i));
+      add(&mut own, &format!("common{}", c));
+    }
     for j in 0..k {
       let id = format!("m{}_{}", i, j);
       match rng.below(24) {
@@ -384,6 +390,34 @@ pub fn child(seed: u64, idx: usize, corpus_file: Option<&str>) {
       toks.sort();
       reqs.push(format!("(sym-exports (mods {}) {})", mods_sexp.join(" "), mi));
       imps.push(toks.join(" "));
+      // ES rule as a least fixpoint, independent of the traversal order: a module exports its own
+      // names and every non-default name of the modules it star-re-exports
+      {
+        let n = w.mods.len();
+        let mut sets: Vec<BTreeSet<String>> = w.mods.iter().map(|mm| mm.own.iter().cloned().collect()).collect();
+        loop {
+          let mut changed = false;
+          for a in 0..n {
+            for t in w.mods[a].stars.iter().flatten() {
+              let add: Vec<String> = sets[*t].iter().filter(|x| x.as_str() != "default" && !sets[a].contains(*x)).cloned().collect();
+              if !add.is_empty() {
+                changed = true;
+                sets[a].extend(add);
+              }
+            }
+          }
+          if !changed {
+            break;
+          }
+        }
+        let got: BTreeSet<String> = ex.resolved.keys().cloned().collect();
+        if got != sets[mi] {
+          out_fail.push((
+            "resolved-exports-differ-from-es-rule".into(),
+            format!("{}: resolved {:?}, the star re-export rule gives {:?}", m.url, got, sets[mi]),
+          ));
+        }
+      }
       let unresolved_stars = ex.unresolved_specifiers.len();
       let expect_unres = reach_unresolved(&w, mi);
       if unresolved_stars != expect_unres {
